@@ -9,7 +9,7 @@ ERR_VARIANTS = {"Err", "None", "Break"}
 
 class Lit:
     """one decoded switch edge"""
-    __slots__ = ("kind", "term", "truth", "variants", "block", "raw", "value", "adt")
+    __slots__ = ("kind", "term", "truth", "variants", "block", "raw", "value", "adt", "edge")
 
     def __init__(self, kind, term, truth=None, variants=None, block=None, raw=None, value=None, adt=None):
         self.kind = kind          # 'call' | 'variant' | 'cmp' | 'flag' | 'other'
@@ -20,6 +20,7 @@ class Lit:
         self.raw = raw
         self.value = value
         self.adt = adt
+        self.edge = None
 
     def __repr__(self):
         from .defuse import fmt
@@ -132,6 +133,7 @@ def lits_of(body, block, facts):
     out = []
     for (s, k, v, tgt) in cfg.dominating_edges(block):
         lit = decode(body, s, v, facts)
+        lit.edge = (s, k, v, tgt)
         out.append(lit)
         if lit.kind == "flag" and lit.truth is not None:
             out.extend(_refine_flag(body, s, lit.truth, facts))
